@@ -476,7 +476,17 @@ func Run[C any](t *testing.T, s Spec[C]) {
 			res = s.Run(c)
 		} else {
 			if pf := Protect(func() { res = s.Run(c) }); pf != nil {
-				res = Result{Violation: pf, NonTrivial: true, Classes: []string{"harness-level-panic"}}
+				if strings.HasPrefix(pf.Key, "panic:?:") {
+					// no frame of the code under test anywhere on the stack: the harness itself failed (scratch file not
+					// writable, disk full, a bug of the harness). That is not a verdict about the property.
+					t.Errorf("HARNESS-ERROR check=%s the harness panicked outside the code under test:\n%s\ncase: %s", s.Name, pf.Msg, cj)
+					st.mu.Lock()
+					st.Notes = append(st.Notes, "harness error: "+firstLine(pf.Msg))
+					st.mu.Unlock()
+					res = Result{}
+				} else {
+					res = Result{Violation: pf, NonTrivial: true, Classes: []string{"panic-in-the-code-under-test"}}
+				}
 			}
 		}
 		if journalPath != "" {
